@@ -149,7 +149,20 @@ func (w *World) Step(tr *vutil.Trace, o AbsOp, amount string, gas string) *execd
 		}
 		amount = utility.BigIntToStr(b)
 	}
+	// "=max": the wallet "send max" pattern for contract-type transactions: value = balance minus
+	// gasLimit*gasPrice for an explicit gas limit of 1,000,000 (gas price 1 gwei = 0.001 RPG). The
+	// flat fee is charged first, so the funds check must refuse it.
+	if amount == "=max" {
+		b := new(big.Int).Set(w.St.GetBalance(common.HexToAddress(src)))
+		b.Sub(b, new(big.Int).Mul(big.NewInt(1000000), big.NewInt(1000000000)))
+		if b.Sign() < 0 {
+			b.SetInt64(0)
+		}
+		amount = utility.BigIntToStr(b)
+		gas = "1000000"
+	}
 	var tx *types.Transaction
+	var tx2 *types.Transaction
 	lock := 0
 	burn := []int{}
 	kind := o.Op
@@ -163,13 +176,13 @@ func (w *World) Step(tr *vutil.Trace, o AbsOp, amount string, gas string) *execd
 		tx = execdrv.NewTx(types.TransactionTypeOperatorEvent, src, "", "", string(d), w.seq, salt)
 	case "Deploy":
 		tx = execdrv.NewTx(types.TransactionTypeContract, src, "", contractData(amount, initCode(Rt), gas), "", w.seq, salt)
-	case "CallForward", "CallRevert", "SelfDestruct", "CallCreate", "EthForward", "EthStale":
+	case "CallForward", "CallRevert", "SelfDestruct", "SelfDestruct2", "CallCreate", "EthForward", "EthStale":
 		if !w.isCon[o.B] && o.Op != "SelfDestruct" {
 			// no contract under that id yet: call goes to a plain account (pure value transfer through the EVM)
 		}
 		callee := w.addr[o.B]
 		target := w.addr[1+(o.B)%3]
-		mode := map[string]int{"CallForward": 0, "CallRevert": 1, "SelfDestruct": 2, "CallCreate": 3, "EthForward": 0, "EthStale": 0}[o.Op]
+		mode := map[string]int{"CallForward": 0, "CallRevert": 1, "SelfDestruct": 2, "CallCreate": 3, "EthForward": 0, "EthStale": 0, "SelfDestruct2": 2}[o.Op]
 		if o.Op == "SelfDestruct" {
 			if o.V == 1 {
 				target = callee // names itself: the balance is burnt
@@ -185,6 +198,13 @@ func (w *World) Step(tr *vutil.Trace, o AbsOp, amount string, gas string) *execd
 		}
 		abi := append(word(common.FromHex(target)), word([]byte{byte(mode)})...)
 		tx = execdrv.NewTx(types.TransactionTypeContract, src, callee, contractData(amount, abi, gas), "", w.seq, salt)
+		if o.Op == "SelfDestruct2" {
+			// a second transaction of the same block calls the (already self-destructed, still
+			// callable until the end of the block) contract again with value and self-destructs it
+			// once more: the value must reach the beneficiary exactly once
+			w.seq++
+			tx2 = execdrv.NewTx(types.TransactionTypeContract, src, callee, contractData("0.25", abi, gas), "", w.seq, salt+"b")
+		}
 		if o.Op == "EthForward" || o.Op == "EthStale" {
 			// a wrapped Ethereum transaction (type 188) is nonce-checked: EthStale carries a nonce
 			// ahead of the state nonce and must be evicted without any effect, not even the fee
@@ -245,6 +265,9 @@ func (w *World) Step(tr *vutil.Trace, o AbsOp, amount string, gas string) *execd
 	var list []*types.Transaction
 	if tx != nil {
 		list = []*types.Transaction{tx}
+		if tx2 != nil {
+			list = append(list, tx2)
+		}
 	}
 	res := execdrv.Execute(w.St, h, list)
 	ok := tx == nil || res.Ok(tx.Hash)
@@ -259,7 +282,7 @@ func (w *World) Step(tr *vutil.Trace, o AbsOp, amount string, gas string) *execd
 		w.addr[o.B] = res.Receipts[0].ContractAddress.GetHexString()
 		w.isCon[o.B] = true
 	}
-	if ok && o.Op == "SelfDestruct" && w.isCon[o.B] {
+	if ok && (o.Op == "SelfDestruct" || o.Op == "SelfDestruct2") && w.isCon[o.B] {
 		w.isCon[o.B] = false
 		w.addr[o.B] = eoa[o.B]
 	}
